@@ -28,10 +28,19 @@ class IntermediateCodeGen(AbstractCodeGen):
     and structures that could easily be used from within the template
     engines.
     """
+    # the same implicit imports as the symbol table generator assumes (a
+    # module without an IMPORTS clause gets them from here only)
     constImports = {
         'SNMPv2-SMI': ('iso',
+                       'Bits',
+                       'Integer32',
+                       'TimeTicks',
+                       'Counter32',
+                       'Counter64',
                        'NOTIFICATION-TYPE',  # bug in some MIBs (e.g. A3COM-HUAWEI-DHCPSNOOP-MIB)
-                       'MODULE-IDENTITY', 'OBJECT-TYPE', 'OBJECT-IDENTITY'),
+                       'Gauge32',
+                       'MODULE-IDENTITY', 'OBJECT-TYPE', 'OBJECT-IDENTITY', 'Unsigned32', 'IpAddress',
+                       'MibIdentifier'),
         'SNMPv2-TC': ('DisplayString', 'TEXTUAL-CONVENTION',),  # XXX
         'SNMPv2-CONF': ('MODULE-COMPLIANCE', 'NOTIFICATION-GROUP',),  # XXX
     }
